@@ -38,8 +38,8 @@ ITER_RET = (r'impl Iterator<Item = Policy> \+ \'_', 'VxIter<Policy>')
 def yields(field, eff):
     return f'yields(r.items(), self.{field}@.dom(), Effect::{eff})'
 
-MUST_SET = '(if self.satisfied_forbids@.dom() =~= Set::<PolicyID>::empty() && self.residual_forbids@.dom() =~= Set::<PolicyID>::empty() { self.satisfied_permits@.dom() } else { self.satisfied_forbids@.dom() })'
-MUST_EFF = '(if self.satisfied_forbids@.dom() =~= Set::<PolicyID>::empty() && self.residual_forbids@.dom() =~= Set::<PolicyID>::empty() { Effect::Permit } else { Effect::Forbid })'
+MUST_SET = '(if self.satisfied_forbids@.dom() =~= SSet::<PolicyID>::empty() && self.residual_forbids@.dom() =~= SSet::<PolicyID>::empty() { self.satisfied_permits@.dom() } else { self.satisfied_forbids@.dom() })'
+MUST_EFF = '(if self.satisfied_forbids@.dom() =~= SSet::<PolicyID>::empty() && self.residual_forbids@.dom() =~= SSet::<PolicyID>::empty() { Effect::Permit } else { Effect::Forbid })'
 
 INV_CLAUSES = [
     ('snapshot', 'it_1.snapshot@.remaining() == ps, pset.distinct_ids(), ps == pset.policy_seq()'),
@@ -158,7 +158,7 @@ ITEMS = [
     Fn(PR, 'impl From<PartialResponse> for Response > fn from', name='from', wrap='impl From<PartialResponse> for Response', vis='',
        proof_start='broadcast use axiom_hashmap_order_ok; proof { lemma_nonempty_empty(sf(p)); }',
        proof_tail='''proof {
-            let m = if sf(p) =~= Set::<PolicyID>::empty() { p.satisfied_permits } else { p.satisfied_forbids };
+            let m = if sf(p) =~= SSet::<PolicyID>::empty() { p.satisfied_permits } else { p.satisfied_forbids };
             assert forall|id: PolicyID| m@.dom().contains(id) implies __vx_r.diagnostics.reason@.contains(id) by {
                 assert(m.key_order().contains(id));
                 let j = choose|j: int| 0 <= j < m.key_order().len() && m.key_order()[j] == id;
